@@ -11,7 +11,40 @@ HERE = os.path.dirname(os.path.dirname(os.path.abspath(__file__)))
 ALL = [f"C{i:02d}" for i in range(1, 21)]
 
 
+def main_root(patch, props):
+    """--root mode: the change is applied in a scratch worktree of /repo's HEAD, the checks read the library from there
+    (FLOWPATHS_ROOT) and write their evidence / replay files to a scratch directory: /repo and /verif stay untouched."""
+    import shutil
+    import tempfile
+    wt = tempfile.mkdtemp(prefix="trywt_", dir="/tmp")
+    out = tempfile.mkdtemp(prefix="tryout_", dir=os.path.join(HERE, ".scratch"))
+    os.rmdir(wt)
+    subprocess.run(["git", "-C", "/repo", "worktree", "add", "-q", "--detach", wt, "HEAD"], check=True)
+    results = {}
+    try:
+        r = subprocess.run(["git", "-C", wt, "apply", patch], capture_output=True, text=True)
+        if r.returncode != 0:
+            print("patch does not apply:", r.stderr)
+            sys.exit(2)
+        os.makedirs(os.path.join(out, "evidence"), exist_ok=True)
+        env = dict(os.environ, FLOWPATHS_ROOT=wt, VERIF_OUT_DIR=out)
+        for p in props:
+            t0 = time.time()
+            c = subprocess.run([os.path.join(HERE, "check"), p, "--tier", "quick"], cwd=HERE, capture_output=True, text=True, env=env)
+            lines = [l for l in c.stdout.splitlines() if l.startswith(("VIOLATION", "MACHINERY", "KNOWN-FINDING"))]
+            clauses = sorted({l.split("clause=")[1].split()[0] for l in lines if "clause=" in l})
+            results[p] = {"rc": c.returncode, "clauses": clauses, "wall": round(time.time() - t0, 1),
+                          "machinery": [l[:300] for l in lines if l.startswith("MACHINERY")]}
+            print(p, "rc=%d" % c.returncode, clauses, results[p]["machinery"][:1], flush=True)
+    finally:
+        subprocess.run(["git", "-C", "/repo", "worktree", "remove", "--force", wt], check=False)
+        shutil.rmtree(out, ignore_errors=True)
+    print(json.dumps(results))
+
+
 def main():
+    if sys.argv[1] == "--root":
+        return main_root(os.path.abspath(sys.argv[2]), sys.argv[3:] or ALL)
     patch = os.path.abspath(sys.argv[1])
     props = sys.argv[2:] or ALL
     st = subprocess.run(["git", "-C", "/repo", "status", "--porcelain", "--untracked-files=no"], capture_output=True, text=True).stdout.strip()
